@@ -326,10 +326,15 @@ func (m *monC15) OnObs(w *World, o *Obs) {
 // C07 — a maker's locked funds are never abandoned.
 
 type openInfo struct {
-	node  int
-	chain string
-	txid  string
-	at    time.Duration
+	node     int
+	chain    string
+	txid     string
+	at       time.Duration
+	inc      int  // incarnation of the node that broadcast it
+	faults   int  // service faults that had fired at the node before the broadcast call
+	recorded bool // some store write of the node has named this transaction
+	windowClosed bool // the node completed a store write after the broadcast (same incarnation)
+	disturbed    bool // a service fault fired at the node inside that window
 }
 
 type monC07 struct {
@@ -393,7 +398,21 @@ func (m *monC07) checkRecords(w *World, node int, when string) {
 		}
 		if m.recordFor(w, node, oi.txid) == nil {
 			w.Probe("C07:opening-without-record")
-			w.Violate("C07", "opening-without-record:"+when, "node %d broadcast opening tx %.12s (%s) but holds no durable record naming it at %s", node, oi.txid, oi.chain, when)
+			// what kind of loss is it? a record that was written and is gone again, a record never
+			// written although nothing disturbed the node, or the window between the wallet
+			// broadcast and the first write being hit by a crash or a failing service call
+			class := "never-recorded:undisturbed"
+			disturbed := oi.disturbed
+			if !oi.windowClosed {
+				// the node has not completed a store write since the broadcast
+				disturbed = w.Sim.Incarnation(node) != oi.inc || w.FaultsFired[node] > oi.faults
+			}
+			if oi.recorded {
+				class = "record-lost"
+			} else if disturbed {
+				class = "never-recorded:after-crash-or-fault"
+			}
+			w.Violate("C07", "opening-without-record:"+class+":"+when, "node %d broadcast opening tx %.12s (%s) but holds no durable record naming it at %s (%s)", node, oi.txid, oi.chain, when, class)
 		}
 	}
 }
@@ -401,12 +420,31 @@ func (m *monC07) checkRecords(w *World, node int, when string) {
 func (m *monC07) OnObs(w *World, o *Obs) {
 	switch o.Kind {
 	case "wallet.opening":
-		m.opened[o.Tx.TxID] = &openInfo{node: o.Node, chain: o.Tx.Chain, txid: o.Tx.TxID, at: o.T}
+		// faults that fired at the node up to now do not count, except the one (if any) that
+		// accompanies this very broadcast (lost acknowledgement): hence the -1 when it is flagged
+		m.opened[o.Tx.TxID] = &openInfo{node: o.Node, chain: o.Tx.Chain, txid: o.Tx.TxID, at: o.T, inc: w.Sim.Incarnation(o.Node), faults: w.FaultsFired[o.Node]}
+		if o.Tx.Err != "" && m.opened[o.Tx.TxID].faults > 0 {
+			m.opened[o.Tx.TxID].faults--
+		}
 	case "store.write":
 		if o.Store.Raw == nil {
 			return
 		}
+		if o.Store.Err == "" {
+			// the window between a wallet broadcast and the node's next completed write closes here
+			for _, oi := range m.opened {
+				if oi.node == o.Node && !oi.windowClosed && w.Sim.Incarnation(o.Node) == oi.inc {
+					oi.windowClosed = true
+					oi.disturbed = w.FaultsFired[o.Node] > oi.faults
+				}
+			}
+		}
 		r := DecodeRec(o.Store.Raw)
+		if r != nil && r.Data.OpeningTxBroadcasted != nil {
+			if oi := m.opened[r.Data.OpeningTxBroadcasted.TxID]; oi != nil && oi.node == o.Node {
+				oi.recorded = true
+			}
+		}
 		if r == nil || !r.Terminal() {
 			return
 		}
@@ -467,10 +505,13 @@ func (m *monC07) Final(w *World) {
 		}
 		w.Probe("C07:csv-matured-checked")
 		if ok, _ := m.resolved(w, oi); !ok {
-			st := "no-record"
-			if r := m.recordFor(w, oi.node, oi.txid); r != nil {
-				st = shortState(r.Current)
+			r := m.recordFor(w, oi.node, oi.txid)
+			if r == nil {
+				// no record: reported by checkRecords above under its own signature; a node that
+				// does not know the output cannot refund it, that is the same defect
+				continue
 			}
+			st := shortState(r.Current)
 			w.Violate("C07", "csv-matured-no-refund:"+st, "node %d: opening output %.12s:%d is %d blocks deep (CSV %d), the invoice is unpaid, and no refund was broadcast after the heal phase (record state: %s)", oi.node, so.TxID, so.Vout, c.Confirmations(so.TxID), so.CSV, st)
 		}
 	}
